@@ -509,6 +509,11 @@ func (inst *InstCall) Operands() []*value.Value {
 	for i := range inst.Args {
 		ops = append(ops, &inst.Args[i])
 	}
+	for _, operandBundle := range inst.OperandBundles {
+		for i := range operandBundle.Inputs {
+			ops = append(ops, &operandBundle.Inputs[i])
+		}
+	}
 	return ops
 }
 
